@@ -54,8 +54,10 @@ def main():
         driver.ACTIVE_KNOWN.clear()
         driver.ACTIVE_KNOWN.update(spec.get('known_tags') or [])
         deadline = t0 + spec.get('cap', 60)
+        from vf.engine import isolation
+        isolation.snapshot()
         res = driver.explore(fn, deadline, region=region,
-                             per_path_timeout=spec.get('per_path_timeout'))
+                             per_path_timeout=spec.get('per_path_timeout'), before_path=isolation.restore)
         out.update(res)
         need = spec.get('covers') or []
         if out['status'] == 'CONFIRMED':
